@@ -9,11 +9,11 @@ class Check(EngineCheck):
     module = "LLBuild.Props.C02"
     theorems = [E + "C02_once", E + "C02_create_needs_reason", E + "C02_reason_true",
                 E + "C02_interrupted_is_never_built", E + "C02_invalid_is_rule_verdict", E + "C02_computedAt_changes_only_on_change",
-                E + "C02_null_build_runs_nothing", E + "engine_fingerprint_matches_model"]
+                E + "C02_null_build_runs_nothing", E + "C02_null_build_after_build", E + "engine_fingerprint_matches_model"]
     mix = [(0.6, {}), (0.2, {"cancel": True}), (0.2, {"threads": True})]
     budget = (300, 3000)
     assumptions = EngineCheck.assumptions + [
-        "C02_null_build_runs_nothing takes the settledness of the records below the requested key (current signature, value still valid, no dependency computed later) as its hypothesis; that a finished build leaves them settled is decided by the python oracle on the real engine's traces (null builds of every explored history run nothing)"]
+        "C02_null_build_after_build: the only client fact assumed is that the rules still accept the values they hold (Program.valid) when the next build starts; signatures, epochs and recorded dependencies are covered by the invariants Inv and Inv2 of the abstract engine"]
 
 
 CHECK = Check()
